@@ -46,6 +46,63 @@ FAMILIES = [
 ]
 
 
+def _parts(v):
+    if isinstance(v, complex):
+        return [v.real, v.imag]
+    if isinstance(v, (tuple, frozenset)):
+        return list(v)
+    return [v]
+
+
+def lookalikes(v):
+    """Legal constants that look like a serialised / keyed image of the constant v: whatever tags, reprs, flags or
+    digests an implementation derives from v to tell constants apart can be spelled as a constant of its own."""
+    tn = type(v).__name__
+    out = [repr(v), str(v), ascii(v), (tn, v), (tn, repr(v)), (tn, str(v)), (v, tn), (tn,) + tuple(str(x) for x in _parts(v)),
+           (tn,) + tuple(repr(x) for x in _parts(v)), (v,), (v, True), (v, False), (type(v).__module__ + "." + tn, v), tn + ":" + repr(v),
+           repr(v).encode("ascii", "backslashreplace"), frozenset([v]), (tn, (v,)),
+           ("<class '%s'>" % tn, v), str(type(v)), (str(type(v)), v)]
+    if isinstance(v, (int, float, complex)) and v == v:
+        out += [(tn, len(_parts(v)), hash(v)), hash(v), (tn, hash(v))]       # process-independent hashes only
+    if isinstance(v, float) and v != v:
+        out += ["nan", ("float", "nan"), (0.0, True), ("nan",), float("nan")]
+    if isinstance(v, float) and v == 0:
+        out += [("float", "-0.0"), (0.0, True), (0.0, False), "-0.0", "0.0"]
+    res, seen = [], set()
+    for x in out:
+        k = repr(H.const_fp(x))
+        if k not in seen:
+            seen.add(k)
+            res.append(x)
+    return res
+
+
+def _big(n, first):
+    return (first,) + tuple(range(1, n))
+
+
+LOOKALIKE_SEEDS = [NAN_Q, -0.0, 0.0, 1, True, 1.0, b"ok", "ok", complex(NAN_Q, -0.0), complex(0.0, -0.0), None, Ellipsis, (1, "a"), frozenset([1]),
+                   2 ** 70, "\udc80", ""]
+# containers past the sizes where implementations switch strategy (caches, digests instead of element-wise keys)
+BIG_FAMILIES = [[_big(n, 0), _big(n, 0.0), _big(n, False), _big(n, -0.0), _big(n, 0j), frozenset(_big(n, 0)), frozenset(_big(n, 0.0)), frozenset(_big(n, False))]
+                for n in (65, 300)]
+BIG_FAMILIES.append([tuple([1] * 70), tuple([True] * 70), tuple([1.0] * 70), tuple([1] * 69 + [True]), tuple([1] * 69 + [1.0]),
+                     (tuple(range(70)),), (tuple([0.0] + list(range(1, 70))),)])
+
+
+def lookalike_pairs():
+    """Deterministic list of (label, a, b): a constant beside one of its look-alikes, and big containers that differ in one slot's type."""
+    out = []
+    for si, v in enumerate(LOOKALIKE_SEEDS):
+        for li, l in enumerate(lookalikes(v)):
+            out.append(("look%d.%d" % (si, li), v, l))
+    for fi, fam in enumerate(BIG_FAMILIES):
+        for i in range(len(fam)):
+            for j in range(i + 1, len(fam)):
+                out.append(("big%d.%d.%d" % (fi, i, j), fam[i], fam[j]))
+    return out
+
+
 def value(rng, depth=0, maxdepth=4):
     c = rng.random()
     if depth >= maxdepth or c < 0.55:
@@ -58,6 +115,9 @@ def value(rng, depth=0, maxdepth=4):
         return frozenset(items)
     except TypeError:
         return tuple(items)
+
+
+FAMILIES = FAMILIES + [[v] + lookalikes(v) for v in LOOKALIKE_SEEDS] + BIG_FAMILIES
 
 
 def family_values():
@@ -114,9 +174,21 @@ def _replace_in_child(mod, fn):
     return rebuild(mod, co_consts=tuple(new))
 
 
-def build_case(seed, i):
+def build_case(seed, i, pair=None):
     """Deterministic W9 case -> (id, code object, description)."""
     rng = H.rng_for(seed, "w9", i)
+    if pair is not None:
+        label, a, b = lookalike_pairs()[pair]
+        if pair % 2:
+            a, b = b, a
+        layout = (pair // 2) % 3
+        if layout == 0:
+            code = _replace_consts(_base("module"), {987654321: a, 987654322: b, 987654323: a})
+        elif layout == 1:
+            code = _replace_in_child(_base("func"), lambda c: _replace_consts(c, {987654321: a, 987654322: b, 987654323: b}))
+        else:
+            code = _replace_in_child(_base("unused"), lambda c: _replace_consts(c, {987654321: a, 987654322: b}))
+        return "w9:pair:%s:%d" % (label, layout), code, H.short([a, b], 300)
     mode = i % 12
     fams = family_values()
     if mode in (0, 1, 2):   # constants as operands of module code
